@@ -41,7 +41,7 @@ cd /repo && git diff --quiet || { echo "/repo is dirty, refusing"; exit 2; }
 git -C /repo apply "$patch" || { echo "patch does not apply to /repo"; exit 2; }
 results=""
 for c in "${checks[@]}"; do
-  (cd /verif && ./check "$c" quick > "$out/check_$c.log" 2>&1); rc=$?
+  (cd "${CHECK_DIR:-/verif}" && ./check "$c" quick > "$out/check_$c.log" 2>&1); rc=$?
   nv=$(grep -c '^VIOLATION' "$out/check_$c.log")
   first=$(grep -A1 '^VIOLATION' "$out/check_$c.log" | grep 'class=' | head -3 | sed 's/ run_index.*//' | tr '\n' ';')
   results="$results $c:exit=$rc:violations=$nv:$first"
